@@ -205,10 +205,15 @@ def structure(sub_spelling):
                Entry("Member #3 C", 0x2100, 3, 0x05, "wo", default=v3, default_text=num(v3, "hexl")),
                Entry("Member at sub 0x1B", 0x2100, 0x1B, 0x06, "rw", default=v1, default_text=num(v1))]
     d.record("A record", 0x2100, members, "0x9", sub_spelling, storage="RAM")
+    # objects without the ObjectType keyword are variables wherever they stand: also right after a record / an array
+    plain2 = Entry("Plain var after a record", 0x2150, 0, 0x07, "rw", default=v1, default_text=num(v1), object_type=None)
+    d.variable(plain2)
     amembers = [Entry("Number of entries", 0x2200, 0, 0x05, "ro", default=2, default_text="0x2"),
                 Entry("Element", 0x2200, 1, 0x03, "rw", default=-7, default_text="-7"),
                 Entry("Element 2", 0x2200, 2, 0x03, "rw")]
     d.record("An array", 0x2200, amembers, "0x8", sub_spelling)
+    plain3 = Entry("Plain var after an array", 0x2250, 0, 0x05, "rw", default=v3, default_text=num(v3), object_type=None)
+    d.variable(plain3)
     dom = Entry("Firmware", 0x2300, 0, 0x0F, "wo", object_type="0x2")
     d.variable(dom)
     txt = Entry("Device name", 0x2301, 0, 0x09, "const", default="Drive 3000 rev B #7", default_text="Drive 3000 rev B #7")
@@ -217,6 +222,10 @@ def structure(sub_spelling):
     d.variable(octs)
     real = Entry("Gain", 0x2303, 0, 0x08, "rw", default=1.5, default_text="1.5")
     d.variable(real)
+    flags = [Entry("Flag %d" % i, 0x2310 + i, 0, 0x01, "rw", default=val, default_text=txt_, pdo=1)
+             for i, (val, txt_) in enumerate(((1, "1"), (0, "0"), (1, "0x1"), (0, "0x0")))]
+    for f in flags:
+        d.variable(f)
     dotted = Entry("Max. motor speed", 0x2304, 0, 0x07, "rw", default=v1, default_text=num(v1))
     d.variable(dotted)
     # 12 comment lines (more than 9: numeric, not alphabetical, order), the count in hex for one spelling, the
@@ -228,6 +237,13 @@ def structure(sub_spelling):
     tag = "C08/structure/" + sub_spelling
     ODRecord, ODArray = C.odmod().ODRecord, C.odmod().ODArray
     _check_var(od[0x2010], plain, tag + "/plain")
+    ODVariable = C.odmod().ODVariable
+    for e in (plain2, plain3):
+        sx.prove(isinstance(od[e.index], ODVariable), "an object without ObjectType is a variable", tag + "/plain-kind")
+        if isinstance(od[e.index], ODVariable):
+            _check_var(od[e.index], e, tag + "/plain-after")
+            sx.prove(od[e.index].storage_location is None and od[e.name] is od[e.index], "storage location and name lookup",
+                     tag + "/plain-after")
     rec = od[0x2100]
     sx.prove(isinstance(rec, ODRecord) and rec.name == "A record" and rec.storage_location == "RAM", "record object",
              tag + "/record")
@@ -243,6 +259,10 @@ def structure(sub_spelling):
     _check_var(od[0x2301], txt, tag + "/string")
     _check_var(od[0x2302], octs, tag + "/octets")
     _check_var(od[0x2303], real, tag + "/real")
+    for f in flags:
+        _check_var(od[f.index], f, tag + "/boolean")
+        sx.prove(isinstance(od[f.index].default, int) and od[f.index].default == f.default, "BOOLEAN default is a number",
+                 tag + "/boolean")
     sx.prove(od["A record"] is rec and od["A record.Member A"] is rec[1] and od["A record"]["Member #3 C"] is rec[3] and od["A record.Member #3 C"] is rec[3]
              and od[0x2100][1] is rec["Member A"], "lookup by index, name and Parent.Child", tag + "/lookup")
     _check_var(od[0x2304], dotted, tag + "/dotted")
